@@ -65,7 +65,7 @@ def _ops(env, M, N, prog):
     return [('M', op[1]) if op[0] == 'M' else ('G', next(it)) for op in prog]
 
 
-def h_trajectory_forward(env, N, r, prog):
+def h_trajectory_forward(env, N, r, prog, compiled=False):
     """Circuit.forward on a program interleaving gates and measurement layers == the operations applied one by one
     (gate.forward / state.measure), records concatenated in order, log-probabilities summed"""
     M = Mods(env)
@@ -81,6 +81,8 @@ def h_trajectory_forward(env, N, r, prog):
                 circ.measure(*x)
             else:
                 circ.take(x)
+        if compiled:
+            circ.compile()          # with measurement layers only the unitary layers are compiled
         return circ.forward(A)
     env.reseed()
     ra = env.run(build)
@@ -277,6 +279,8 @@ def jobs(tier):
     for prog in progs2:
         for r in (0, 1, 2):
             J.append(dict(harness=('c14', 'h_trajectory_forward'), params=dict(N=2, r=r, prog=prog), timeout_s=600, cost=40))
+            if r == 1:
+                J.append(dict(harness=('c14', 'h_trajectory_forward'), params=dict(N=2, r=r, prog=prog, compiled=True), timeout_s=600, cost=40))
     for N in (1, 2):
         for outcome in (0, 1):
             J.append(dict(harness=('c14', 'h_postselect'), params=dict(N=N, outcome=outcome), timeout_s=600, cost=20))
